@@ -33,6 +33,8 @@ OPEN_STATEMENTS = [
     'CubicFermionicSimulationGate with general weights: proved are generator = JW image of the extracted components and the '
     'characteristic equation of the 3x3 block (cubic_generator_is_jw, cubic_block_characteristic); the eigenvalues themselves '
     '(numpy.linalg.eigh, irrational) and hence the unitary are covered by the oracle exp(-i t G) only',
+    'DoubleExcitationGate: generator, eigen-components and spectral form are proved (double_excitation_spectral); quartic gate: '
+    'generator = JW image (quartic_generator_is_jw); the 16x16 product of its three rotations is not proved',
     'QuarticFermionicSimulationGate._decompose_ (numerical matrix square root of a product of expm) and '
     'DoubleExcitationGate._decompose_ (Z**(1/8): entries in Q(zeta_16), outside the Gaussian rationals the Model computes with) '
     'cannot be stated as matrix identities over GQ at rational points; oracle decomposition == gate only',
@@ -40,11 +42,10 @@ OPEN_STATEMENTS = [
     'givens_decomposition_square output is such a description is checked on generated matrices (correspondence)',
     'bogoliubov_transform / prepare_* / optimal_givens_decomposition / ffft: the conjugation identity and the prepared '
     'states are checked numerically (oracle, <= 5 resp. 8 qubits); the Givens decompositions themselves belong to C11; '
-    'ffft: for 2^M modes ffft_pow2_is_dft proves that the emitted op list implements the DFT on the one-particle sector, given the '
-    'single-gate actions of F0 / _TwiddleGate / _permute (checked against the real gate classes: gate-action oracle); for other sizes '
-    'only ffft_spec_partial (index recursion = DFT exponent table for every factor list) is proved — the prime-size blocks are '
-    'bogoliubov_transform circuits (C11); the extension from the one-particle sector to the full Fock space (U a^_k U^-1 as an '
-    'operator identity) and the normalisation 2^{-M/2} are the oracle',
+    'ffft: ffft_is_dft proves for EVERY size n that the emitted op list implements the DFT on the one-particle sector, given the '
+    'single-gate actions of F0 / _TwiddleGate / _permute / the prime blocks (prime blocks are bogoliubov_transform circuits whose '
+    'DFT action is their specification: C11 + gate-action oracle); conjugation_determines_fock_action lifts one-particle statements '
+    'to Fock space abstractly; that the real gates have these single-gate actions and the normalisation n^{-1/2} are the oracle',
 ]
 ASSUMPTIONS = [
     'cirq.unitary / cirq.Circuit.unitary, scipy.linalg.expm and numpy are trusted numerical kernels (abs. tol. 1e-9)',
@@ -360,6 +361,12 @@ def gates_stream(ctx, lad):
                 cirq, cirq.decompose_once(of.DoubleExcitationGate(exponent=t)(*qs)), qs))
             if ok:
                 oracle(case, 'decomposition: DoubleExcitation', D, U, up_to_phase=True)
+    # DoubleExcitation: Model generator vs the fermionic operator -(a2^ a3^ a1 a0 + h.c.) through the Spec ladders
+    case = {'gate': 'DoubleExcitation generator'}
+    st.case(case)
+    Gx = lad.get(4, 2, 1) @ lad.get(4, 3, 1) @ lad.get(4, 1, 0) @ lad.get(4, 0, 0)
+    cmp_later(case, 'DoubleExcitation generator (Model) vs -(a2^ a3^ a1 a0 + h.c.)', -(Gx + Gx.conj().T),
+              model('doubleExcitationGenerator'))
     # FSWAP itself
     case = {'gate': 'FSWAP'}
     st.case(case)
@@ -1218,7 +1225,7 @@ def primitives_stream(ctx, lad):
     # single-gate actions assumed by applyFfftOp (hypotheses of ffft_pow2_is_dft) on the real gate classes
     import importlib
     ffm = importlib.import_module('openfermion.circuits.primitives.ffft')
-    lad.prefetch([2, 4, 5])
+    lad.prefetch([2, 3, 4, 5])
     case = {'fn': 'ffft gate actions'}
     st.case(case)
     ok, UF = safe(st, 'unitary(F0)', case, lambda: cirq.unitary(ffm.F0))
@@ -1237,6 +1244,14 @@ def primitives_stream(ctx, lad):
                   maxdiff(UT @ lad.get(2, 1, 1) @ UT.conj().T, np.exp(-2j * np.pi * kk / nn) * lad.get(2, 1, 1)))
             check(case, 'gate-action: twiddle leaves the other mode alone',
                   maxdiff(UT @ lad.get(2, 0, 1) @ UT.conj().T, lad.get(2, 0, 1)))
+    for pp in (3, 5):
+        qp = cirq.LineQubit.range(pp)
+        ok, UPr = safe(st, 'unitary(_ffft_prime)', case, lambda: circuit_unitary(cirq, ffm._ffft_prime(qp), qp))
+        if ok:
+            for kk in range(pp):
+                check(dict(case, prime=pp), 'gate-action: prime block a^_k = p^-1/2 sum_j e^{-2 pi i kj/p} a^_j',
+                      maxdiff(UPr @ lad.get(pp, kk, 1) @ UPr.conj().T,
+                              sum(np.exp(-2j * np.pi * kk * jj / pp) * lad.get(pp, jj, 1) for jj in range(pp)) / np.sqrt(pp)))
     for npm in (4, 5):
         qp = cirq.LineQubit.range(npm)
         perm = list(range(npm))
@@ -1276,6 +1291,16 @@ def primitives_stream(ctx, lad):
             if not maxdiff(C, want) <= 1e-8:
                 st.disagree('ffft single-particle coefficients vs the Model exponent table ctExp', case,
                             np.round(C, 6).tolist(), table)
+            if n >= 2:
+                # all sizes (theorem ffft_is_dft): the same operation semantics on integer polynomials mod X^n - 1
+                simc = ctx.driver.one({'op': 'c14.ffftsimcyc', 'n': n})
+                om = np.exp(-2j * np.pi / n)
+                Sc = np.array([[sum(c * om ** e for e, c in enumerate(poly)) for poly in row] for row in simc])
+                st.float_comparisons += 1
+                st.count('ffft:gate-action-simulation-any-size')
+                if not maxdiff(np.sqrt(n) * C, Sc) <= 1e-8:
+                    st.disagree('ffft single-particle coefficients vs the Model operation semantics runFfft (cyclic)', case,
+                                np.round(np.sqrt(n) * C, 6).tolist(), simc)
             if n >= 2 and n & (n - 1) == 0:
                 # the operations of the Model (runFfft on integer polynomials in omega_n mod omega^(n/2) = -1, the function
                 # of theorem ffft_pow2_is_dft) vs the real circuit: sqrt(n) C_kj = polynomial evaluated at e^{-2 pi i/n}
